@@ -166,6 +166,41 @@ fn three_decades(len: usize, nice: bool, rng: &mut Rng) -> Vec<f64> {
     v
 }
 
+/// three-decade stream (values in [1, 1000], non-zero steps in [1/8, 100]) that sweeps across the range
+/// in steps of 50..100 in a persistent direction and, every now and then, hovers for 10..40 values in
+/// steps of exactly 1/8 up and down: whatever is maintained incrementally across the sweep (an extent, a sum) is divided by
+/// something small during the hover
+fn sweep_and_hover(len: usize, rng: &mut Rng) -> Vec<f64> {
+    let mut v = Vec::with_capacity(len);
+    let mut x = 500.0f64;
+    let mut dir = 1.0f64;
+    let mut hover = 0usize;
+    for _ in 0..len {
+        if hover > 0 {
+            hover -= 1;
+            // (off-grid steps: on the grid of eighths f32 arithmetic on these values is exact)
+            // up and down by exactly 1/8 around an off-grid level: the narrowest window the stream allows
+            let y = x + if hover % 2 == 0 { 0.125 } else { -0.125 };
+            x = if (1.0..=1000.0).contains(&y) { y } else { x };
+        } else {
+            if rng.chance(1, 20) {
+                hover = rng.usize(10, 40);
+            }
+            let step = 50.0 + 50.0 * rng.unit53();
+            let y = x + dir * step;
+            if !(1.0..=1000.0).contains(&y) {
+                dir = -dir;
+                x += dir * step;
+            } else {
+                x = y;
+            }
+            x = x.clamp(1.0, 1000.0);
+        }
+        v.push(x);
+    }
+    v
+}
+
 /// three-decade stream that leaves its first value far behind: from 1 up to 1000 in steps of 1, then
 /// a walk inside [990, 1000] with steps of 0.001 .. 0.017 (non-zero steps within three decades)
 fn climb_then_hover(len: usize, rng: &mut Rng) -> Vec<f64> {
@@ -333,6 +368,17 @@ fn check<T: Scalar>(cx: &Ctx, xs: &[f64], t: usize, got: Option<T>, big: f64, ou
     if !(dev <= cx.tol) {
         let n = v.kind.n().unwrap_or(1);
         let mut pred = if matches!(v.kind, Kind::Vst(_) | Kind::Vsct(_)) && super::welford_residue_explains(&v.kind, xs, t, g.f(), T::EPS) { "explained_by_running_m2_rounding_residue" } else { "any" };
+        if let Kind::LagRsi(n) = v.kind {
+            // CU / (CU + CD): the four stages carry a few ulps of the level each; where CU + CD is
+            // small against the level that rounding alone moves the quotient by eps x level / (CU + CD)
+            let s = settle(&v.kind) + 8;
+            let tail = &xs[(t + 1).saturating_sub(s)..=t];
+            if let Some((_, den)) = crate::oracle::ehlers::laguerre_rsi(tail, n).last() {
+                if (g.f() - e).abs() * *den <= 16.0 * T::EPS * big {
+                    pred = "deviation_le_16_eps_level_over_CU_plus_CD";
+                }
+            }
+        }
         if let (Kind::Welford(_), true, "flat") = (v.kind, e == 0.0, cx.clause) {
             // sqrt of the running m2's rounding residue: each update perturbs m2 by O(eps x level x
             // spread) (a running sum of squares would be perturbed by eps x level^2)
@@ -371,7 +417,9 @@ fn drift<T: Scalar>(v: &V, xs: &[f64], out: &mut TrialOut) {
     let cx = Ctx { v, clause: "drift", tol: if T::NAME == "f32" { 1e-2 } else { 1e-6 } };
     let Ok(mut inst) = guarded(|| build_plain::<T>(&Spec::leaf(v.kind))) else { return };
     let n = v.kind.n().unwrap_or(1);
-    let every = (xs.len() / 200).max(1);
+    // 200 checkpoints; on the short f32 streams 1000, and every step for windows up to 16 (an error
+    // that shows only while the window is narrow is short-lived)
+    let every = if T::NAME == "f32" && n <= 16 { 1 } else { (xs.len() / if T::NAME == "f32" { 1000 } else { 200 }).max(1) };
     let mut big = 0f64;
     for t in 0..xs.len() {
         big = big.max(xs[t].abs());
@@ -522,7 +570,12 @@ impl Monitor for C16 {
             let nice = rep % 4 == 0;
             let per_update = 1 + v.kind.n().unwrap_or(1) / 24; // O(N) views get shorter streams
             let len = if f32_run { 10_000 } else { cfg.tier.pick(100_000usize, 1_000_000) / per_update / if v.recursive && cfg.tier == Tier::Quick { 4 } else { 1 } };
-            let xs = three_decades(len, nice, &mut rng);
+            // (half of the f32 and a quarter of the f64 drift streams sweep and hover)
+            let sweeping = rng.chance(if f32_run { 2 } else { 1 }, 4);
+            let xs = if sweeping { sweep_and_hover(len, &mut rng) } else { three_decades(len, nice, &mut rng) };
+            if sweeping {
+                out.count("drift_streams_that_sweep_and_hover", 1);
+            }
             if idx % 41 == 0 {
                 out.sample(format!("drift: {} on a three-decade stream of {} values ({}), 200 checkpoints + the last min(2N, 32) steps", Spec::leaf(v.kind).show(), len, if nice { "dyadic grid" } else { "grid of tenths" }));
             }
